@@ -31,4 +31,5 @@ type BasePathFS struct {
 type BasePathFile struct {
 	baseFile avfs.File   // baseFile represents an open file descriptor from the base file system.
 	vfs      *BasePathFS // vfs is the base path file system of the file.
+	name     string      // name is the name of the file as presented to OpenFile.
 }
